@@ -215,6 +215,16 @@ def run(chk):
     else:
         chk.analysis_error("C07.atomic.swap: `self._acquired.remove(placeholder)` not found in connect()")
 
+    # reuse: a connection taken out of the pool is counted as acquired before anything suspends
+    getf = repo.func(MOD, "BaseConnector._get")
+    pl = [n for n in K.nodes_matching(getf, "$C.popleft()")]
+    if pl:
+        _atomic(chk, "C07.atomic.reuse", getf, repo, start_edges=[(n, None) for n in pl],
+                b_pred=lambda n: K.node_has(n, "self._acquired.add($P)") or (n.kind == "stmt" and isinstance(n.ast, ast.Return)),
+                what="a pooled connection is neither in the pool nor counted as acquired only within one synchronous step (while a task is suspended in that window other tasks see a free slot and open a connection beyond the limit)",
+                edge_filter=None, summarised=None)
+    else:
+        chk.analysis_error("C07.atomic.reuse: `conns.popleft()` not found in _get()")
     # ---- C07.wake (T2, T1) ---------------------------------------------------------------------------
     nrem = 0
     for fn, hits in prog.writers(repo, [MOD], "_acquired").items():
@@ -284,6 +294,27 @@ def run(chk):
     else:
         chk.violation("C07.wake.pick", relw, "waiters.popitem(last=False)", "FIFO pop", "_release_waiter() no longer takes the oldest waiter first")
 
+    # the search for a waiter covers every queue: a wake-up that only looks at some keys is dropped when those queues hold finished waiters only
+    outer = [l for c, _b in sets for l in K.loop_ancestors(c) if isinstance(l, ast.For)]
+    if outer:
+        loop = outer[-1]
+        srcs = []
+        if isinstance(loop.iter, ast.Name):
+            srcs = [v for _d, v in norm.fn_defs(relw.node).defs.get(loop.iter.id, []) if v is not None]
+        else:
+            srcs = [loop.iter]
+        def whole(v):
+            return any(isinstance(n, ast.Attribute) and norm.raw(n) == "self._waiters" and not isinstance(getattr(n, "parent", None), ast.Subscript) for n in ast.walk(v)) \
+                and not M.contains(v, "self._waiters.get($K)") and not M.contains(v, "self._waiters[$K]")
+        part = [v for v in srcs if not whole(v)]
+        if srcs and not part:
+            chk.ok("C07.wake.scan", loop, f"_release_waiter() scans the queues of all keys ({'; '.join(norm.raw(v) for v in srcs)})")
+        else:
+            v = part[0] if part else loop.iter
+            chk.violation("C07.wake.scan", v, K.short(v), "list(self._waiters)",
+                          "the wake-up search can be restricted to a subset of the waiter queues: when those queues only hold finished (cancelled / timed-out) waiters the freed slot wakes nobody and live waiters of other keys stay blocked")
+    else:
+        chk.violation("C07.wake.scan", relw, "for key in queues", "loop over all keys", "_release_waiter() no longer scans the waiter queues per key")
     # ---- C07.handoff / C07.waiterfinally / C07.stalealias ------------------------------------------------
     aw = [a for a in prog.awaits_in(wait.node) if isinstance(a.value, ast.Name)]
     futs = {a.value.id for a in aw}
